@@ -415,7 +415,7 @@ func (p *parser) parseMul() (Expr, error) {
 }
 
 func (p *parser) parseUnary() (Expr, error) {
-	if p.isOp("!") || p.isOp("-") {
+	if p.isOp("!") || p.isOp("-") || p.isOp("*") {
 		op := p.next().s
 		x, err := p.parseUnary()
 		if err != nil {
@@ -563,6 +563,8 @@ type FuncSpec struct {
 	Extern   bool
 	Skip     map[string]bool // obligation kinds not generated for this function (stated)
 	Unroll   map[int]int
+	Uses     []string
+	FilePkg  string // package of the contract file the spec was written in
 }
 
 type GhostDecl struct {
@@ -600,16 +602,17 @@ type SpecSet struct {
 	TypeInvs []*TypeInv
 	Globals  []*Lemma
 	Files    []string
+	GhostVars map[string]GhostDecl
 }
 
 func newSpecSet() *SpecSet {
-	return &SpecSet{Funcs: map[string]*FuncSpec{}, SpecFns: map[string]*SpecFn{}}
+	return &SpecSet{Funcs: map[string]*FuncSpec{}, SpecFns: map[string]*SpecFn{}, GhostVars: map[string]GhostDecl{}}
 }
 
 var clauseKeywords = map[string]bool{"func": true, "requires": true, "ensures": true, "modifies": true,
 	"loop": true, "inline": true, "props": true, "arith": true, "pure": true, "function": true, "writes": true,
 	"type": true, "spec": true, "lemma": true, "global": true, "trusted": true, "ghost": true, "allocs": true,
-	"skip": true, "end": true}
+	"skip": true, "end": true, "uses": true, "ghostvar": true}
 
 // specLines extracts the //@ payload lines of a Go file, or all lines of a
 // .spec file.
@@ -673,7 +676,7 @@ func (ss *SpecSet) parseFile(path, pkg string) error {
 	}
 	var cur *FuncSpec
 	rel := path
-	if r, err := filepath.Rel("/repo", path); err == nil && !strings.HasPrefix(r, "..") {
+	if r, err := filepath.Rel(repoDir, path); err == nil && !strings.HasPrefix(r, "..") {
 		rel = r
 	} else if r, err := filepath.Rel("/verif", path); err == nil && !strings.HasPrefix(r, "..") {
 		rel = "verif/" + r
@@ -693,7 +696,7 @@ func (ss *SpecSet) parseFile(path, pkg string) error {
 			if strings.Contains(rest, "/") || (pkg == "" && strings.Contains(rest, ".")) {
 				p = ""
 			}
-			cur = &FuncSpec{Target: target, Pkg: p, Loops: map[int][]*Clause{}, LoopMods: map[int][]*Clause{}, Line: where, Skip: map[string]bool{}, Unroll: map[int]int{}}
+			cur = &FuncSpec{Target: target, Pkg: p, FilePkg: pkg, Loops: map[int][]*Clause{}, LoopMods: map[int][]*Clause{}, Line: where, Skip: map[string]bool{}, Unroll: map[int]int{}}
 			key := target
 			if p != "" {
 				key = p + "." + target
@@ -799,6 +802,8 @@ func (ss *SpecSet) parseFile(path, pkg string) error {
 			cur.Props = strings.Fields(rest)
 		case "writes":
 			cur.Writes = append(cur.Writes, strings.Fields(rest)...)
+		case "uses":
+			cur.Uses = append(cur.Uses, strings.Fields(rest)...)
 		case "skip":
 			for _, k := range strings.Fields(rest) {
 				cur.Skip[k] = true
@@ -868,6 +873,13 @@ func (ss *SpecSet) parseFile(path, pkg string) error {
 			} else {
 				ss.Globals = append(ss.Globals, l)
 			}
+			cur = nil
+		case "ghostvar":
+			f := strings.Fields(rest)
+			if len(f) != 2 {
+				return fail(fmt.Errorf("ghostvar needs name and type"))
+			}
+			ss.GhostVars[f[0]] = GhostDecl{Name: f[0], Type: f[1], Init: pkg}
 			cur = nil
 		case "end":
 			cur = nil
